@@ -447,6 +447,24 @@ def check_C04(chk):
                 for L in (10, cap + 100, cap + 2 * f + 7):
                     for lv in ("typed", "platform"):
                         mix.append({"id": next(nid0), "len": L, "nsend": ns, "nrecv": nr, "nshm": nm, "level": lv})
+    # ... and messages that fill (or overfill by one) the 64 descriptor slots with endpoints AND regions, single- and multi-packet:
+    # accepted ones arrive with every endpoint at its position, the others are refused whole
+    full = []
+    for tot in (62, 63, 64, 65):
+        for nm in (1, 2, 5):
+            for L in (10, cap + 100):
+                for lv in ("typed", "platform"):
+                    ns = (tot - nm) - (tot - nm) // 3
+                    full.append({"id": next(nid0), "len": L, "nsend": ns, "nrecv": tot - nm - ns, "nshm": nm, "level": lv})
+    fitems = F2.run_cases(bins["default"], 4096, full)
+    for it in fitems:
+        c = it["case"]
+        fits = c["nsend"] + c["nrecv"] + c["nshm"] + (1 if F2.wire_len(c, it["rec"]) > cap else 0) <= 64
+        why = F2.oracle(chk, it, fits)
+        if why:
+            chk.failing_input("a message filling the descriptor slots with endpoints and regions: " + why, {"input": c, "observed": it["rec"]},
+                              key="full:len=%d ns=%d nr=%d nm=%d %s" % (c["len"], c["nsend"], c["nrecv"], c["nshm"], c["level"]))
+    chk.coverage["full_slot_cases"] = len(fitems)
     mitems = F2.run_cases(bins["default"], 4096, mix)
     for it in mitems:
         why = F2.oracle(chk, it, True)
